@@ -47,70 +47,83 @@ def keep(e):
     return replay.proj(e) is not None
 
 
-def validate(scs, log_path, wd, name="trace", prop=None, max_runs=None):
-    """Returns dict(validated, skipped{reason:count}, rejected[list], drift[list], stats)."""
+def validate(scs, log_path, wd, name="trace", prop=None, max_runs=None, chunk_lines=40000):
+    """Returns dict(validated, skipped{reason:count}, rejected[list], drift[list], stats).  The recorded runs are fed
+    to TLC in chunks of about `chunk_lines` lines (one JVM and one JSON load per chunk)."""
     by_id = {s["id"]: s for s in scs}
-    skipped, runs = {}, []
-    out_path = os.path.join(wd, name + ".filtered.ndjson")
-    n = 0
-    with open(out_path, "w") as f:
-        for first, sid, lines in vlib.split_log(log_path):
-            sc = by_id.get(sid)
-            why = "not a scripted scenario" if sc is None else supported(sc)
-            recs = [json.loads(x) for x in lines]
-            if why is None and any(e.get("k") in ("panic", "hang") for e in recs):
-                why = "panic / hang recorded"
-            if why:
-                skipped[why] = skipped.get(why, 0) + 1
-                continue
-            if max_runs is not None and len(runs) >= max_runs:
-                skipped["beyond the quick tier's budget"] = skipped.get("beyond the quick tier's budget", 0) + 1
-                continue
-            kept = [e for e in recs if keep(e)]
-            start = n + 1
-            for e in kept:
-                if e.get("k") == "crash":
-                    e = dict(e, atk=str(e.get("at", "")).split("#")[0])
-                f.write(json.dumps(e) + "\n")
-            n += len(kept)
-            runs.append({"id": sid, "first": start, "last": n, "recorded": recs})
-    res = {"validated": 0, "skipped": skipped, "rejected": [], "drift": [], "runs": len(runs), "lines": n, "stats": {}, "design_violations": []}
-    if not runs:
+    skipped, chunks, cur, n_runs, n_lines = {}, [], [], 0, 0
+    for first, sid, lines in vlib.split_log(log_path):
+        sc = by_id.get(sid)
+        why = "not a scripted scenario" if sc is None else supported(sc)
+        recs = [json.loads(x) for x in lines]
+        if why is None and any(e.get("k") in ("panic", "hang") for e in recs):
+            why = "panic / hang recorded"
+        if why is None and max_runs is not None and n_runs >= max_runs:
+            why = "beyond this tier's budget"
+        if why:
+            skipped[why] = skipped.get(why, 0) + 1
+            continue
+        kept = [dict(e, atk=str(e.get("at", "")).split("#")[0]) if e.get("k") == "crash" else e for e in recs if keep(e)]
+        if cur and sum(len(r["kept"]) for r in cur) + len(kept) > chunk_lines:
+            chunks.append(cur)
+            cur = []
+        cur.append({"id": sid, "kept": kept, "recorded": recs})
+        n_runs += 1
+        n_lines += len(kept)
+    if cur:
+        chunks.append(cur)
+    res = {"validated": 0, "skipped": skipped, "rejected": [], "drift": [], "runs": n_runs, "lines": n_lines,
+           "stats": {"states": 0, "transitions": 0, "wall_s": 0, "tlc_runs": len(chunks)}, "design_violations": []}
+    if not chunks:
         return res
     cfg = "trace.cfg"
     if prop:
         text = open(os.path.join(vlib.SPEC, cfg)).read().replace("INVARIANT NoViolation", "INVARIANT Inv_" + prop)
         cfg = os.path.join(wd, prop + ".trace.cfg")
         open(cfg, "w").write(text)
-    rc, out, st = vlib.tlc("TraceOmaha", cfg, workers=8, env={"TRACE": os.path.abspath(out_path), "JAVA_TOOL_OPTIONS": "-Xss1g -Xmx8g -Dtlc2.tool.impl.Tool.cdot=true"}, name=name, timeout=2400, extra=["-continue"])
-    res["stats"] = st
-    open(os.path.join(wd, name + ".tlc.out"), "w").write(out)
-    if rc not in (0, 12, 13) or "Error: Evaluating" in out or "TLC threw" in out:
-        i = out.find("Error:")
-        raise vlib.ToolError("TLC failed on TraceOmaha: " + out[i:i + 3000])
-    if "is violated" in out:
-        res["design_violations"] = sorted(set(re.findall(r"Invariant (Inv_C\d+|NoViolation) is violated", out)))
-    prog = {}
-    for m in re.finditer(r'"TP (\d+) (\d+) (\w+)"', out):
-        lim, l = int(m.group(1)), int(m.group(2))
-        if l >= prog.get(lim, (0, ""))[0]:
-            prog[lim] = (l, m.group(3))
-    pred = {}
-    for b in replay.behaviours(out):
-        if b["l"] >= pred.get(b["lim"], {"l": -1})["l"]:
-            pred[b["lim"]] = b
-    for r in runs:
-        l, pc = prog.get(r["last"], (r["first"] - 1, "?"))
-        b = pred.get(r["last"])
-        if l < r["last"] or b is None:
-            kept = [e for e in r["recorded"] if keep(e)]
-            nxt = kept[l - r["first"] + 1] if l - r["first"] + 1 < len(kept) else None
-            res["rejected"].append({"scenario": r["id"], "matched": l - r["first"] + 1, "of": r["last"] - r["first"] + 1, "pc": pc,
-                                    "next_recorded": nxt})
-            continue
-        d = replay.diff(b["obs"], [e for e in r["recorded"] if e.get("k") not in ("tm.nofire", "ctl.drop", "ctl.nohandle")])
-        if d:
-            res["drift"].append({"scenario": r["id"], "first_difference": d})
-        else:
-            res["validated"] += 1
+    for ci, runs in enumerate(chunks):
+        out_path = os.path.join(wd, "%s.%d.filtered.ndjson" % (name, ci))
+        n = 0
+        with open(out_path, "w") as f:
+            for r in runs:
+                r["first"] = n + 1
+                for e in r["kept"]:
+                    f.write(json.dumps(e) + "\n")
+                n += len(r["kept"])
+                r["last"] = n
+        rc, out, st = vlib.tlc("TraceOmaha", cfg, workers=8, name="%s.%d" % (name, ci), timeout=2400, extra=["-continue"],
+                               env={"TRACE": os.path.abspath(out_path),
+                                    "JAVA_TOOL_OPTIONS": "-Xss1g -Xmx8g -Dtlc2.tool.impl.Tool.cdot=true"})
+        for k in ("states", "transitions", "wall_s"):
+            res["stats"][k] = round(res["stats"][k] + st.get(k, 0), 1)
+        open(os.path.join(wd, "%s.%d.tlc.out" % (name, ci)), "w").write(out)
+        if rc not in (0, 12, 13) or "Error: Evaluating" in out or "TLC threw" in out:
+            i = out.find("Error:")
+            raise vlib.ToolError("TLC failed on TraceOmaha: " + out[i:i + 3000])
+        if "is violated" in out:
+            res["design_violations"] = sorted(set(res["design_violations"]) | set(re.findall(r"Invariant (Inv_C\d+|NoViolation) is violated", out)))
+        prog = {}
+        for m in re.finditer(r'"TP (\d+) (\d+) (\w+)"', out):
+            lim, l = int(m.group(1)), int(m.group(2))
+            if l >= prog.get(lim, (0, ""))[0]:
+                prog[lim] = (l, m.group(3))
+        pred = {}
+        for b in replay.behaviours(out):
+            if b["l"] >= pred.get(b["lim"], {"l": -1})["l"]:
+                pred[b["lim"]] = b
+        for r in runs:
+            l, pc = prog.get(r["last"], (r["first"] - 1, "?"))
+            b = pred.get(r["last"])
+            if l < r["last"] or b is None:
+                kept = r["kept"]
+                nxt = kept[l - r["first"] + 1] if l - r["first"] + 1 < len(kept) else None
+                res["rejected"].append({"scenario": r["id"], "matched": l - r["first"] + 1, "of": r["last"] - r["first"] + 1,
+                                        "pc": pc, "next_recorded": nxt})
+                continue
+            d = replay.diff(b["obs"], [e for e in r["recorded"] if e.get("k") not in ("tm.nofire", "ctl.drop", "ctl.nohandle")])
+            if d:
+                res["drift"].append({"scenario": r["id"], "first_difference": d})
+            else:
+                res["validated"] += 1
+        os.remove(out_path)
     return res
